@@ -3,6 +3,8 @@
 -/
 import TlsModel.Render
 import TlsModel.States
+import TlsModel.Serialize
+import TlsModel.ValueParse
 open Tls
 
 abbrev TB := UInt8 × Nat
@@ -96,6 +98,23 @@ def mkMessage (args : List String) : Option (Message TB) :=
     | _, _ => none
   | _ => none
 
+def rSer (r : SerRes TB) : String :=
+  match r with
+  | .bytes b => if b.isEmpty then "bytes -" else "bytes " ++ hexOfNats (b.map fun x => x.1.toNat)
+  | .notImplemented => "generr NotYetImplemented"
+  | .panic => "panic"
+
+def runSer (op : String) (value : String) : String :=
+  match parseValue value with
+  | none => "badrequest"
+  | some e =>
+    if op == "ser_msg" then (match vMessage e with | some m => rSer (serMessage m) | none => "badrequest")
+    else if op == "ser_hs" then (match vHandshake e with | some h => rSer (serHandshake h) | none => "badrequest")
+    else if op == "ser_rec" then (match vPlaintext e with | some p => rSer (serPlaintext p) | none => "badrequest")
+    else if op == "ser_ext" then (match vExtension e with | some x => rSer (serExtension x) | none => "badrequest")
+    else if op == "ser_exts" then (match vList vExtension e with | some l => rSer (serExtensions l) | none => "badrequest")
+    else "unsupported"
+
 def rBool (b : Bool) : String := if b then "1" else "0"
 
 /-- `rand_time()` as repaired: big-endian u32 of the first four bytes, 0 if fewer than 4 -/
@@ -103,7 +122,13 @@ def randTime (random : List TB) : Nat := if random.length ≥ 4 then beVal (rand
 def randBytes (random : List TB) : List TB := if random.length ≥ 4 then random.drop 4 else []
 
 def handle (line : String) : String :=
-  match line.trimAscii.toString.splitOn " " with
+  let trimmed := line.trimAscii.toString
+  if trimmed.startsWith "ser_" then
+    match trimmed.splitOn " " with
+    | op :: rest => runSer op (" ".intercalate rest)
+    | [] => "badrequest"
+  else
+  match trimmed.splitOn " " with
   | ["tls_header", h] => run parseRecordHeader rHdr h
   | ["tls_raw", h] => run parseRawRecord rRaw h
   | ["tls_encrypted", h] => run parseEncrypted rEnc h
